@@ -479,6 +479,8 @@ func (i *Interp) Explore(job *Job, setup, run *ssa.Function, lim Limits, base []
 		i.allocEvents = 0
 		i.allocLog = nil
 		i.allocTrack = false
+		i.poolChoice = false
+		i.poolSeq = 0
 		if i.threads != nil {
 			i.threads = nil
 		}
